@@ -1028,6 +1028,8 @@ func (e *SpecEnv) convert(x ast.Expr, t types.Type) (Val, error) {
 		return Val{T: "(rtrunc " + v.T + ")", Ty: t}, nil
 	case isInterface(t) && !isInterface(v.Ty):
 		return Val{T: e.fc.makeIface(e.st, v), Ty: t}, nil
+	case isInteger(v.Ty) && isString(t):
+		return Val{T: e.fc.runeStr(v.T), Ty: t}, nil
 	}
 	if e.fc.S().SortOf(v.Ty) == e.fc.S().SortOf(t) {
 		return Val{T: v.T, Ty: t}, nil
